@@ -165,6 +165,7 @@ func InitGlobalEnvironment() {
 	initDateTime()
 	initDateTimeSpan()
 	initTimezone()
+	initIteratorMixins()
 }
 
 func init() {
